@@ -65,7 +65,7 @@ class Space:
       self.names.append(f'{name}[{i}]' if n > 1 else name)
       self.lo.append(float(lo[i]))
       self.hi.append(float(hi[i]))
-    codes = np.arange(start + 1, start + n + 1, dtype=np.int64) << (self.bits * (self.maxdeg - 1))
+    codes = np.array([self.var_code(v) for v in range(start + 1, start + n + 1)], dtype=np.int64)
     cols = self.intern(codes)
     self.var_cols.extend(cols.tolist())
     if self._series_name is not None and name == self._series_name:
@@ -104,8 +104,14 @@ class Space:
       out[:, k] = (codes >> (self.bits * (self.maxdeg - 1 - k))) & self.mask
     return out
 
+  def var_code(self, v: int) -> np.int64:
+    """Code of the monomial consisting of the single variable with slot value v (= index + 1)."""
+    return np.int64(v) << (self.bits * (self.maxdeg - 1))
+
   def pack(self, slots: np.ndarray) -> np.ndarray:
     code = np.zeros(slots.shape[0], dtype=np.int64)
+    if slots.shape[1] < self.maxdeg:
+      slots = np.pad(slots, [(0, 0), (0, self.maxdeg - slots.shape[1])])
     for k in range(self.maxdeg):
       code |= slots[:, k].astype(np.int64) << (self.bits * (self.maxdeg - 1 - k))
     return code
@@ -152,7 +158,7 @@ class Space:
     s = self.slots(self.codes[cols])
     L = np.ones(len(cols))
     H = np.ones(len(cols))
-    for k in range(self.maxdeg):
+    for k in range(s.shape[1]):
       v = s[:, k]
       active = v != 0
       if not active.any():
@@ -209,6 +215,80 @@ class Space:
       arg = a['arg'].evaluate(x)
       x[a['var']] = a['fn'](arg.reshape(-1)[0]) if a['arg'].size == 1 else a['fn'](arg)
     return x
+
+
+class ExpSpace(Space):
+  """Monomial coding by exponent vectors (few variables, high degree): `ebits` bits per variable.
+  The product of monomials is the sum of their codes."""
+
+  def __init__(self, ebits: int = 4, series_var=None, series_order=None):
+    super().__init__(bits=ebits, series_var=series_var, series_order=series_order)
+    self.ebits = ebits
+    self.maxvars = 63 // ebits
+    self.emax = (1 << ebits) - 1
+    self.maxdeg = 10 ** 9          # not a limit in this coding
+    self.mask = 10 ** 9
+
+  def new_vars(self, name, n, lo=-1.0, hi=1.0):
+    if self.nvars + n > self.maxvars:
+      raise DegreeOverflow(f'ExpSpace holds at most {self.maxvars} variables')
+    return super().new_vars(name, n, lo, hi)
+
+  def var_code(self, v):
+    return np.int64(1) << (self.ebits * (int(v) - 1))
+
+  def exponents(self, codes):
+    codes = np.asarray(codes, dtype=np.int64)
+    nv = max(self.nvars, 1)
+    out = np.empty((len(codes), nv), dtype=np.int64)
+    for i in range(nv):
+      out[:, i] = (codes >> (self.ebits * i)) & self.emax
+    return out
+
+  def slots(self, codes):
+    e = self.exponents(codes)
+    n, nv = e.shape
+    width = int(max(e.sum(axis=1).max(initial=0), 1))
+    out = np.zeros((n, width), dtype=np.int64)
+    pos = np.zeros(n, dtype=np.int64)
+    rows = np.arange(n)
+    for v in range(nv - 1, -1, -1):
+      ev = e[:, v]
+      for j in range(int(ev.max(initial=0))):
+        m = ev > j
+        out[rows[m], pos[m]] = v + 1
+        pos[m] += 1
+    return out
+
+  def pack(self, slots):
+    code = np.zeros(slots.shape[0], dtype=np.int64)
+    for v in range(self.nvars):
+      cnt = (slots == v + 1).sum(axis=1).astype(np.int64)
+      if cnt.max(initial=0) > self.emax:
+        raise DegreeOverflow('exponent overflow')
+      code |= cnt << (self.ebits * v)
+    return code
+
+  def mono_product(self, ca, cb):
+    ea = self.exponents(ca); eb = self.exponents(cb)
+    es = ea + eb
+    keep = np.ones(len(es), dtype=bool)
+    if self.series_var is not None and self.series_order is not None:
+      keep &= es[:, self.series_var - 1] <= self.series_order
+    if (es[keep] > self.emax).any():
+      raise DegreeOverflow(f'exponent exceeds {self.emax}')
+    return np.asarray(ca, dtype=np.int64) + np.asarray(cb, dtype=np.int64), keep
+
+  def degree(self, cols=None):
+    codes = self.codes if cols is None else self.codes[cols]
+    return self.exponents(codes).sum(axis=1)
+
+  def mono_values(self, x, ncols=None):
+    ncols = self.ncols if ncols is None else ncols
+    e = self.exponents(self.codes[:ncols])
+    xv = np.asarray(x, dtype=float)[None, :e.shape[1]]
+    with np.errstate(all='ignore'):
+      return np.prod(np.where(e > 0, xv ** e, 1.0), axis=1)
 
 
 def _csr(m):
@@ -837,3 +917,48 @@ def reduce_recip_linear(X: PolyArr, max_rounds: int = 12) -> PolyArr:
     if not changed:
       break
   return X
+
+
+# ---------------------------------------------------------------------------
+# series helpers (designated variable h = Space.series_var)
+
+def h_degree(sp: Space, cols: np.ndarray) -> np.ndarray:
+  return (sp.slots(sp.codes[cols]) == sp.series_var).sum(axis=1)
+
+
+def h_coefficient(P: PolyArr, k: int) -> PolyArr:
+  """Coefficient of h^k (a polynomial in the remaining variables)."""
+  sp = P.sp
+  M = _csr(P._aligned()).tocoo()
+  if M.nnz == 0:
+    return PolyArr(P.shape, sps.csr_matrix((P.size, sp.ncols)), sp)
+  ucols, inv = np.unique(M.col, return_inverse=True)
+  s = sp.slots(sp.codes[ucols])
+  deg = (s == sp.series_var).sum(axis=1)
+  s2 = np.where(s == sp.series_var, 0, s)
+  s2 = -np.sort(-s2, axis=1)
+  newcols = sp.intern(sp.pack(s2))
+  keep = deg[inv] == k
+  Mn = sps.csr_matrix((M.data[keep], (M.row[keep], newcols[inv][keep])), shape=(P.size, sp.ncols))
+  Mn.sum_duplicates()
+  return PolyArr(P.shape, Mn, sp)
+
+
+def h_integrate(P: PolyArr) -> PolyArr:
+  """Formal integral in h from 0: h^k -> h^(k+1)/(k+1); terms beyond the series order are dropped."""
+  sp = P.sp
+  M = _csr(P._aligned()).tocoo()
+  if M.nnz == 0:
+    return P
+  ucols, inv = np.unique(M.col, return_inverse=True)
+  hcode = sp.var_code(sp.series_var)
+  codes, keepu = sp.mono_product(sp.codes[ucols], np.full(len(ucols), hcode, dtype=np.int64))
+  deg = h_degree(sp, ucols)
+  newcols = np.full(len(ucols), -1, dtype=np.int64)
+  if keepu.any():
+    newcols[keepu] = sp.intern(codes[keepu])
+  nc = newcols[inv]
+  keep = nc >= 0
+  Mn = sps.csr_matrix((M.data[keep] / (deg[inv][keep] + 1), (M.row[keep], nc[keep])), shape=(P.size, sp.ncols))
+  Mn.sum_duplicates()
+  return PolyArr(P.shape, Mn, sp)
